@@ -23,6 +23,7 @@ func propC17() Property {
 		Rules: []RuleDef{
 			{ID: "C17-R1", Desc: "file: save before increment", Min: 1, Run: c17R1},
 			{ID: "C17-R2", Desc: "file SaveMessage: data, then index, then sync data, then sync index", Min: 3, Run: c17R2},
+			{ID: "C17-R9", Desc: "the index scan is left only behind the requested range", Min: 1, Run: c17R9},
 			{ID: "C17-R8", Desc: "each stored message is read at the offset its index line records", Min: 1, Run: c17R8},
 			{ID: "C17-R3", Desc: "counter rewrite: seek → fixed-width write → sync", Min: 3, Run: c17R3},
 			{ID: "C17-R4", Desc: "sql save-and-increment is one transaction; cache after commit", Min: 4, Run: c17R4},
